@@ -56,6 +56,23 @@ def systematic_bases() -> list:
                               "stdout_encoding": "utf-8"},
                     "plan": [],
                 })
+    # every special input (BOM, cookies, surrogates, unicode line separators, block boundaries, ...)
+    # under every option set, to a file
+    for name in sorted(c16.SPECIAL_INPUTS):
+        for mi, model in enumerate(models):
+            parts = [{"kind": "in", "argv": ["in.py"]}]
+            for n in OPTION_NAMES:
+                if n in model:
+                    parts.append({"kind": "item", "item": {"cls": "valid", "name": n, "value": model[n]}, "argv": ["-C%s=%s" % (n, model[n])]})
+            parts.append({"kind": "out", "argv": ["-o", "out.txt"]})
+            out.append({
+                "prop": PROP, "seed": 0, "parts": parts, "out_mode": "file", "in_path": "in.py", "out_path": "out.txt",
+                "in_state": "present", "out_state": "absent", "prog": None, "variant": None, "special": name,
+                "fs": {"files": {"in.py": c16.SPECIAL_INPUTS[name].hex(), "other.txt": b"do not touch\n".hex()}, "dirs": [], "ro": [], "unreadable": []},
+                "roles": {"in.py": "IN", "out.txt": "OUT"},
+                "knobs": {"buffer_size": 8192, "stdout_buffer": 8192, "stdout_line_buffered": False, "locale": "utf-8", "stdout_encoding": "utf-8"},
+                "plan": [],
+            })
     return out
 
 
